@@ -39,7 +39,9 @@ def _pools(draw, field, fmt, n=5):
 
 @st.composite
 def cid_specs(draw, kinds=KINDS, max_fields=5, types=gen_fields.TYPES, max_header=2, checks="some",
-              key_pool=3):
+              key_pool=3, max_unique=1):
+    """``max_unique`` > 1 is for differential oracles only: with several IsUnique checks cutplace deviates from the
+    statement the reference model follows (open finding C05|registered-by-rejected-row)."""
     kind = draw(st.sampled_from(kinds))
     header = draw(st.integers(0, max_header))
     fmt = gen_fields.format_spec(kind, header=header)
@@ -86,6 +88,12 @@ def cid_specs(draw, kinds=KINDS, max_fields=5, types=gen_fields.TYPES, max_heade
             sep = draw(st.sampled_from([", ", ",", " , "]))
             check_specs.append({"desc": draw(st.sampled_from(_DESCRIPTIONS)) % ("unique " + "_".join(keys)),
                                 "type": "IsUnique", "rule": sep.join(keys), "keys": keys})
+        if max_unique > 1 and check_specs and draw(st.booleans()):
+            k = draw(st.integers(1, min(2, len(names))))
+            keys = list(draw(st.permutations(names)))[:k]
+            if ", ".join(keys) != ", ".join(check_specs[0]["keys"]):
+                check_specs.append({"desc": "also unique " + "_".join(keys), "type": "IsUnique",
+                                    "rule": ", ".join(keys), "keys": keys})
         for number in range(draw(st.integers(0, 2))):
             name = draw(st.sampled_from(names))
             op = draw(st.sampled_from(_OPS))
